@@ -274,6 +274,8 @@ func (dm *DMap) setLRUEvictionStats(e *env) error {
 	}
 
 	if dm.config.maxInuse > 0 {
+		// The eviction above may have removed a key: judge the fragment as it is now.
+		st = e.fragment.storage.Stats()
 		// MaxInuse controls maximum in-use memory of partitions on this node.
 		// We need ownedPartitionCount property because every partition
 		// manages itself independently. So if you set MaxInuse=70M(in bytes) and
